@@ -330,6 +330,11 @@ func (c *Chain) commitHeader(h cmttypes.Header, valSet *cmttypes.ValidatorSet) (
 
 // CommitHeader signs header h with the validators of valSet (all of them, or only those in only if non-nil).
 func CommitHeader(h cmttypes.Header, valSet *cmttypes.ValidatorSet, keys *KeyStore, only map[string]bool) (*cmtproto.SignedHeader, error) {
+	return CommitHeaderRound(h, valSet, keys, only, 1)
+}
+
+// CommitHeaderRound is CommitHeader with an explicit commit round.
+func CommitHeaderRound(h cmttypes.Header, valSet *cmttypes.ValidatorSet, keys *KeyStore, only map[string]bool, round int32) (*cmtproto.SignedHeader, error) {
 	blockID := ibctesting.MakeBlockID(h.Hash(), 3, tmhash.Sum([]byte("part_set")))
 	sigs := make([]cmttypes.CommitSig, len(valSet.Validators))
 	for i, v := range valSet.Validators {
@@ -341,7 +346,7 @@ func CommitHeader(h cmttypes.Header, valSet *cmttypes.ValidatorSet, keys *KeySto
 		vote := &cmtproto.Vote{
 			Type:             cmtproto.PrecommitType,
 			Height:           h.Height,
-			Round:            1,
+			Round:            round,
 			BlockID:          blockID.ToProto(),
 			Timestamp:        h.Time,
 			ValidatorAddress: v.Address,
@@ -357,7 +362,7 @@ func CommitHeader(h cmttypes.Header, valSet *cmttypes.ValidatorSet, keys *KeySto
 			Signature:        vote.Signature,
 		}
 	}
-	commit := &cmttypes.Commit{Height: h.Height, Round: 1, BlockID: blockID, Signatures: sigs}
+	commit := &cmttypes.Commit{Height: h.Height, Round: round, BlockID: blockID, Signatures: sigs}
 	return &cmtproto.SignedHeader{Header: h.ToProto(), Commit: commit.ToProto()}, nil
 }
 
